@@ -1,6 +1,7 @@
 package main
 
 import (
+	"time"
 	"fmt"
 	"strings"
 
@@ -32,9 +33,19 @@ type prg interface {
 
 func prgOps(g random.Rand, ops []string) string {
 	var sb strings.Builder
+	record := func(sw *[]string, i, j int) {
+		if len(*sw) > 1<<20 { // no documented call makes that many swaps with the sizes used here
+			panic("too many swaps")
+		}
+		*sw = append(*sw, fmt.Sprintf("%d:%d", i, j))
+	}
 	for _, op := range ops {
 		sb.WriteByte(' ')
-		sb.WriteString(guard(func() string {
+		if strings.HasSuffix(sb.String(), "no-return ") {
+			sb.WriteString("skipped") // the generator is still in the hands of the call that did not return
+			continue
+		}
+		sb.WriteString(guardT(20*time.Second, func() string {
 			var n, m int
 			var u uint64
 			switch {
@@ -63,7 +74,7 @@ func prgOps(g random.Rand, ops []string) string {
 			case strings.HasPrefix(op, "sm"):
 				fmt.Sscanf(op, "sm%d,%d", &n, &m)
 				var sw []string
-				err := g.Samples(n, m, func(i, j int) { sw = append(sw, fmt.Sprintf("%d:%d", i, j)) })
+				err := g.Samples(n, m, func(i, j int) { record(&sw, i, j) })
 				if err != nil {
 					return "err"
 				}
@@ -74,7 +85,7 @@ func prgOps(g random.Rand, ops []string) string {
 			case strings.HasPrefix(op, "sh"):
 				fmt.Sscanf(op, "sh%d", &n)
 				var sw []string
-				err := g.Shuffle(n, func(i, j int) { sw = append(sw, fmt.Sprintf("%d:%d", i, j)) })
+				err := g.Shuffle(n, func(i, j int) { record(&sw, i, j) })
 				if err != nil {
 					return "err"
 				}
@@ -392,6 +403,23 @@ func genC15(c *Ctx) {
 		emit("nm-random", []string{fmt.Sprintf("p%d", n), fmt.Sprintf("sp%d,%d", n, m), fmt.Sprintf("sm%d,%d", n, m), fmt.Sprintf("sh%d", n)})
 	}
 	emit("negative", []string{"p-5", "sp-1,-1", "sp3,-2", "sm-4,2", "sm2,-4", "sh-3", fmt.Sprintf("p%d", -1<<62)})
+	// integer extremes of (n, m), all of them refused by the documented conditions (n < 0, m < 0, n < m): a comparison
+	// rewritten as a difference (m - n > 0) overflows exactly here
+	const minI, maxI = -1 << 63, 1<<63 - 1
+	for _, n := range []int{minI, minI + 1, minI + 7, -(1 << 62), -(1 << 62) - 1, -(1 << 32), -1} {
+		ops := []string{fmt.Sprintf("p%d", n), fmt.Sprintf("sh%d", n)}
+		for _, m := range []int{1, 2, 0, -1, 5, maxI, minI} {
+			ops = append(ops, fmt.Sprintf("sp%d,%d", n, m), fmt.Sprintf("sm%d,%d", n, m))
+		}
+		emit("nm-extremes", append(ops, "st"))
+	}
+	for _, n := range []int{0, 1, 5} {
+		ops := []string{}
+		for _, m := range []int{maxI, maxI - 1, minI, minI + 1, 1 << 62, 1 << 32, -(1 << 62)} {
+			ops = append(ops, fmt.Sprintf("sp%d,%d", n, m), fmt.Sprintf("sm%d,%d", n, m))
+		}
+		emit("nm-extremes", append(ops, "st"))
+	}
 }
 
 // ranged lists a..b
